@@ -266,8 +266,11 @@ impl TerminalRenderer {
     #[tracing::instrument(name = "[TerminalRenderer.frame]", level="debug", skip_all, fields(frame_count = %self.frame_count))]
     pub fn frame<T: Terminal + ?Sized>(&mut self, term: &mut T) -> Result<(), Error> {
         // clear hoisted locals
+        //
+        // NOTE: marks are not cleared here, `Damaged` marks set by `new` or `clear`
+        //       must survive until this frame is rendered (forced repaint), they
+        //       are reset at the end of the frame.
         self.images.clear();
-        self.marks.fill(CellMark::Empty);
 
         // First pass
         //
@@ -425,6 +428,7 @@ impl TerminalRenderer {
         self.frame_count += 1;
         std::mem::swap(&mut self.front, &mut self.back);
         self.front.clear();
+        self.marks.fill(CellMark::Empty);
 
         Ok(())
     }
